@@ -71,10 +71,14 @@ RECURSIVE Texts(_, _), OperandTexts(_, _)
 OperandTexts(c, d) == IF c.k = "F" THEN UNION {{Rnd(ts), Ang(ts)} : ts \in Texts(c, d)} ELSE Texts(c, d)
 Texts(c, d) == IF c.k = "A" THEN Wraps(Show(c), d)
                ELSE UNION {Wraps(a \o <<Tok(c.s)>> \o b, d) : a \in OperandTexts(c.l, d - 1), b \in OperandTexts(c.r, d - 1)}
-(* flattened: the brackets of one functor operand removed, so two slashes share a level *)
+(* flattened: the brackets of ONE functor operand removed, at the root or inside a bracketed sub-term, so that two
+   slashes share a level *)
+RECURSIVE Flats(_)
 Flats(c) == IF c.k = "A" THEN {}
             ELSE (IF c.l.k = "F" THEN {Show(c.l) \o <<Tok(c.s)>> \o Operand(c.r)} ELSE {})
                  \cup (IF c.r.k = "F" THEN {Operand(c.l) \o <<Tok(c.s)>> \o Show(c.r)} ELSE {})
+                 \cup {Rnd(t) \o <<Tok(c.s)>> \o Operand(c.r) : t \in Flats(c.l)}
+                 \cup {Operand(c.l) \o <<Tok(c.s)>> \o Rnd(t) : t \in Flats(c.r)}
 (* remove redundant brackets = canonical text of the value read *)
 Canonical(toks) == Show(Read(toks).out)
 =============================================================================
